@@ -441,10 +441,10 @@ class ChunkedDataDict(GenericEquality):
             obj._dict = self._dict
             obj._global_settings = self._global_settings
             return obj
-        obj._dict = defaultdict(partial(list, self._global_settings))
-        for key, values in self._dict.items():
-            obj._dict[key].extend(values)
         obj._global_settings = list(self._global_settings)
+        obj._dict = defaultdict(partial(list, obj._global_settings))
+        for key, values in self._dict.items():
+            obj._dict[key] = list(values)
         return obj
 
     def mk_item(self, key, neg, pos):
@@ -514,15 +514,9 @@ class ChunkedDataDict(GenericEquality):
     def update_from_stream(self, stream):
         for cinst in stream:
             if getattr(cinst.key, "key", None) is not None:
-                # atom, or something similar.  use the key lookup.
-                # hack also... recreate the restriction; this is due to
-                # internal idiocy in ChunkedDataDict that will be fixed.
-                new_globals = (
-                    x
-                    for x in self._global_settings
-                    if x not in self._dict[cinst.key.key]
-                )
-                self._dict[cinst.key.key].extend(new_globals)
+                # atom, or something similar.  use the key lookup; a new key
+                # starts from the current globals, an existing one already has
+                # every global interlaced in the order it was added.
                 self._dict[cinst.key.key].append(cinst)
             else:
                 self.add_global(cinst)
